@@ -35,10 +35,11 @@ HtmlShapes == { Shape("script", FALSE, <<>>, <<>>), Shape("script", TRUE, bTextJ
                 Shape("iframe", FALSE, <<>>, <<>>), Shape("svg", FALSE, <<>>, <<>>), Shape("math", FALSE, <<>>, <<>>),
                 Shape("styleAttr", FALSE, <<>>, <<>>), Shape("onAttr", FALSE, <<>>, <<>>),
                 Shape("dataUriAttr", FALSE, <<>>, bSvg), Shape("dataUriAttr", FALSE, <<>>, bTextCss),
-                Shape("dataUriAttr", FALSE, <<>>, <<>>) }
+                Shape("dataUriAttr", FALSE, <<>>, <<>>), Shape("dataUriAttr", FALSE, <<>>, bSvgCharset) }
 SvgShapes  == { Shape("svgStyleText", FALSE, <<>>, <<>>), Shape("svgStyleCdata", FALSE, <<>>, <<>>), Shape("svgStyleAttr", FALSE, <<>>, <<>>),
                 Shape("svgStyleText", TRUE, bTextCss, <<>>) }
-CssShapes  == { Shape("cssDataUri", FALSE, <<>>, bSvg), Shape("cssDataUri", FALSE, <<>>, bTextCss), Shape("cssDataUri", FALSE, <<>>, <<>>) }
+CssShapes  == { Shape("cssDataUri", FALSE, <<>>, bSvg), Shape("cssDataUri", FALSE, <<>>, bTextCss), Shape("cssDataUri", FALSE, <<>>, <<>>),
+                Shape("cssDataUri", FALSE, <<>>, bSvgCharset) }
 ShapesOf(h) == CASE h = "html" -> HtmlShapes [] h = "svg" -> SvgShapes [] h = "css" -> CssShapes
 
 EInit == /\ RInit /\ hostKind = "none" /\ host = <<>> /\ phase = "config" /\ pc = 1 /\ sub = 0
